@@ -77,6 +77,12 @@ func (v *Vue) evaluate(ctx VueContext, nodes []*html.Node, depth int) ([]*html.N
 				continue
 			}
 
+			// A v-else-if / v-else element reached here was not rendered by its chain (an earlier member
+			// matched, or there is no chain): it is skipped, also when it carries v-for.
+			if !helpers.HasAttr(node, "v-if") && (helpers.HasAttr(node, "v-else-if") || helpers.HasAttr(node, "v-else")) {
+				continue
+			}
+
 			if helpers.HasAttr(node, "v-for") {
 				chainResult, skipCount, err := v.evalVFor(ctx, node, nodes[i:], depth)
 				if err != nil {
